@@ -114,8 +114,8 @@ Theorem c09_interp_kernel_pairing_refuted :
 Proof. exact lex_into_grid_kernel_kron_witness. Qed.
 Print Assumptions c09_interp_kernel_pairing_refuted.
 
-(* the repair of the pairing (fixes_proposed/C09_interp_index_order_minimal.diff, /repo 196a870,
-   in GridInterpolationKernel._compute_grid and GridInterpolationVariationalStrategy._compute_grid): handing the
+(* the repair of the pairing (/repo fix commit 196a870, in GridInterpolationKernel._compute_grid
+   and GridInterpolationVariationalStrategy._compute_grid): handing the
    dimensions to Interpolation.interpolate in REVERSE order turns its lexicographic flat index into
    the column-major index, i.e. (c09_grid_data_row, c09_grid_kernel_is_product_kernel) the row of
    create_data_from_grid holding the node and its position in GridKernel's Kronecker product *)
